@@ -723,13 +723,15 @@ impl<H: NodeHasher> PageWalker<H> {
         let stack_top = self.stack.last_mut().unwrap();
         stack_top.page.set_node(node_index, node);
 
+        // The zeroing of a node is part of the diff even when it may leave the page cleared: a
+        // later change of another node erases the clear bit again, and the diff must still say
+        // that this node was zeroed.
+        stack_top.diff.set_changed(node_index);
         if self.position.is_first_layer_in_page()
             && node == TERMINATOR
             && sibling_node == TERMINATOR
         {
             stack_top.diff.set_cleared();
-        } else {
-            stack_top.diff.set_changed(node_index);
         }
     }
 
